@@ -15,7 +15,7 @@ THEOREMS = [N + t for t in [
     "weak_strong_systems", "weak_strong_systems_cg", "weak_strong_systems_blocked", "strong_solution_solves_weak",
     "iteration_counter", "iteration_counter_gmres", "iteration_counter_gmres_blocked", "iteration_counter_cg",
     "blocked_matvec_eq_dense", "blocked_matmat_eq_dense", "blocked_matmat_is_columnwise_matvec",
-    "generalized_matmat_eq_dense", "blocked_ctor_dims_sound",
+    "generalized_matmat_eq_dense", "blocked_ctor_dims_sound", "blocked_matvec_eq_dense_of_index",
 ]]
 PARTIAL = {
     N + "lu_roundtrip": "exactness of scipy.linalg.solve (and injectivity of the weak form) are hypotheses; rounding and "
